@@ -5,3 +5,5 @@ import AM.Model.Inhibit
 import AM.Lemmas.Inhibit
 import AM.Lemmas.InhibitLegacy
 import AM.Props.C03
+import AM.Model.Ingest
+import AM.Props.C13
